@@ -14,7 +14,7 @@ from . import core, driver, gen, steps, streams, universe, workload
 PROP = "C10"
 LEVEL = "exploration"
 MEM_GIB = 4.0
-KINDS = ("sim", "bytesio", "buffered")
+KINDS = ("sim", "bytesio", "buffered", "raw")
 
 TIERS = {
     "quick": {"classes": 260, "instances": 3, "faults_per_instance": 500, "random_inputs": 150},
@@ -131,6 +131,10 @@ def _open_source(kind: str, data: bytes, budget, chunks):
     if kind == "bytesio":
         return streams.CountingBytesIO(data, budget=budget)
     raw = streams.SimRawSource(data, streams.seq_chunker(chunks or []), budget=budget)
+    if kind == "raw":
+        raw = streams.SimRawUnbuffered(raw._data, raw._chunker, budget=budget)
+        # unbuffered raw stream (raw socket / pipe / FileIO): read(n) may legally come back short
+        return raw
     return streams.AllocLimitedBufferedReader(raw, buffer_size=16)
 
 
@@ -246,8 +250,10 @@ def run_task(task: dict) -> dict:
                     else:
                         data, ops = corrupt(rng, base, hot, other)
                     r = rng.random()
-                    kind = "sim" if r < 0.7 else ("bytesio" if r < 0.9 else "buffered")
+                    kind = "sim" if r < 0.62 else ("bytesio" if r < 0.82 else ("buffered" if r < 0.92 else "raw"))
                     chunks = None
+                    if kind == "raw":
+                        chunks = streams.short_read_chunks(rng)
                     if kind == "buffered":
                         mode = rng.choice(streams.CHUNK_MODES)
                         ch = streams.rng_chunker(rng, mode)
@@ -347,8 +353,10 @@ def matches_finding(violation: dict, entry: dict) -> bool:
     site = violation.get("site") or {}
     if m.get("signature") != violation["signature"]:
         return False
-    if "kind" in m and violation["scenario"].get("kind") != m["kind"]:
-        return False
+    if "kind" in m:
+        kinds = m["kind"] if isinstance(m["kind"], list) else [m["kind"]]
+        if violation["scenario"].get("kind") not in kinds:
+            return False
     ms = m.get("raise_site")
     if ms:
         if site.get("file") != ms["file"] or site.get("func") != ms["func"] or ms["code"] not in site.get("code", ""):
